@@ -519,6 +519,10 @@ class Evaluator:
             v_ = args[0].n
             args[0].n += 1
             return v_
+        if q in ("itertools.chain", "chain") and all(isinstance(a, (list, tuple)) for a in args):
+            return [x for a in args for x in a]
+        if q == "divmod" and len(args) == 2 and all(isinstance(a, int) and not isinstance(a, bool) for a in args) and args[1] != 0:
+            return divmod(args[0], args[1])
         if q == "dict.fromkeys" and 1 <= len(args) <= 2 and isinstance(args[0], (list, tuple)):
             return dict.fromkeys(args[0], args[1] if len(args) == 2 else None)
         if q == "zip":
